@@ -230,7 +230,6 @@ Record ctx := mkCtx {
   c_f : fn;
   c_s : nat;              (* handle of the timeout call *)
   c_sig : sigtab;         (* the signal table while the reactor spins *)
-  c_re : option bool;
   c_saved : sigtab;
   c_rd : list nat         (* selectables registered by the function *)
 }.
@@ -250,6 +249,7 @@ Section OneRun.
     | AFire o => exists t, f_shape f = Later t o /\ dc_time c = c_n0 x + t
     | AStopReq => exists st, f_stop f = Some st /\ dc_time c = c_n0 x + st
     | ANoop t => 10 <= t
+    | ATry t _ => 10 <= t
     | ARunFunction _ _ => False
     end.
 
@@ -275,7 +275,7 @@ Section OneRun.
     i_rd : readers (w_r w) = c_rd x;
     i_sig : w_sig w = c_sig x;
     i_flag : w_flag w = true;
-    i_re : w_reentry w = c_re x;
+    i_re : reentry_okb f (w_reentry w) = true;
     i_junk : sp_junk (w_sp w) = [];
     i_saved : sp_saved (w_sp w) = c_saved x;
     i_tc : sp_timeout_call (w_sp w) = Some (c_s x);
@@ -324,10 +324,11 @@ Section OneRun.
   (* a legitimate call that can end the run carries its event's instant *)
   Lemma legit_ev c : legit c -> tokc c <= 2 -> exists t, ev_time T f (tokc c) = Some t /\ dc_time c = c_n0 x + t.
   Proof.
-    unfold legit, tokc. intros [_ H] Hk. destruct (dc_act c) as [|o| |tk|]; simpl in *.
+    unfold legit, tokc. intros [_ H] Hk. destruct (dc_act c) as [|o| |tk|tk oo|]; simpl in *.
     - exists T. split; [reflexivity | apply H].
     - destruct H as [t [Es Ht]]. exists t. rewrite Es. split; [reflexivity | exact Ht].
     - destruct H as [st [Es Ht]]. exists st. split; assumption.
+    - lia.
     - lia.
     - destruct H.
   Qed.
@@ -399,8 +400,20 @@ Proof. intro H. apply Nat.leb_gt. lia. Qed.
 Lemma app_one_ne {A} (l : list A) a : l ++ [a] <> [].
 Proof. destruct l; discriminate. Qed.
 
+(* a call of run() made while a run is in progress is refused and changes nothing *)
+Definition refuses (inn : world -> res value exc * world) : Prop :=
+  forall w, w_flag w = true -> inn w = (Raised EReentry, w).
+
+Lemma reentry_okb_snoc f re : reentry_okb f re = true -> reentry_okb f (re ++ [true]) = true.
+Proof.
+  unfold reentry_okb. rewrite !andb_true_iff, forallb_app, app_length. intros [H1 H2]. simpl.
+  rewrite H1. split; [reflexivity|]. apply Nat.leb_le. apply Nat.leb_le in H2. lia.
+Qed.
+
 Section Step.
   Variable x : ctx.
+  Variable inn : world -> res value exc * world.
+  Hypothesis Hinn : refuses inn.
 
   Lemma st_ok_ext q q' e e' sp : st_ok x q e sp -> seq_in (c_s x) q' = seq_in (c_s x) q ->
     has 0 e' = has 0 e -> has 1 e' = has 1 e -> st_ok x q' e' sp.
@@ -428,7 +441,7 @@ Section Step.
     Inv x w -> In c (queue (w_r w)) ->
     (forall c', In c' (queue (w_r w)) -> dc_time c <= dc_time c') ->
     (E w <> [] -> dc_time c = mstar x) ->
-    let w' := exec_call c (popw c nw orc' w) in
+    let w' := exec_call inn c (popw c nw orc' w) in
     Inv x w' /\ (E w' <> [] -> dc_time c = mstar x)
     /\ incl (queue (w_r w')) (queue (w_r w)) /\ length (queue (w_r w')) < length (queue (w_r w)).
   Proof.
@@ -442,21 +455,21 @@ Section Step.
     assert (Hrunf : (if spn then false else run) = false).
     { destruct spn; [reflexivity|]. destruct run; [|reflexivity]. destruct (Hphase eq_refl) as [_ [? _]]. discriminate. }
     destruct c as [ct cs ca]. unfold legit in Hleg; prj. destruct Hleg as [Hs_act Hleg]. unfold tokc in Hfirst; prj.
-    destruct ca as [|o| |tk|]; cbv zeta.
+    destruct ca as [|o| |tk|tk oo|]; cbv zeta.
     - (* the timeout call *)
       destruct Hleg as [-> ->].
       assert (Hpend : seq_in (c_s x) q = true).
       { apply seq_in_spec. eexists; split; [exact Hin|reflexivity]. }
       destruct Hstate as [_ H0 H1 Hsu Hfa | Hp _ _ | Hp _ _ _]; [|congruence|congruence]. prj. subst su fa.
       assert (Hestar : c_T x = estar x). { apply Hfirst; reflexivity. }
-      match goal with |- context [exec_call ?a ?b] => set (w' := exec_call a b) end.
+      match goal with |- context [exec_call inn ?a ?b] => set (w' := exec_call inn a b) end.
       assert (Ew' : w' = mkW (mkReactor nw sq (remove_seq (c_s x) q) [] (c_rd x) (if spn then false else run) false orc')
                              SFake (c_sig x) true (mkSp None (Some ETimeout) [] false (Some (c_s x)) (c_saved x))
-                             (ran ++ [0]) (c_re x)).
+                             (ran ++ [0]) re).
       { subst w'. destruct spn; reflexivity. }
       rewrite Ew'. clear w' Ew'. rewrite Hrunf. prj.
       split; [|split; [|split]].
-      + constructor; unfold E; prj; try reflexivity.
+      + constructor; unfold E; prj; try reflexivity; try exact Hre.
         * apply nodup_remove_seq; exact Hnd.
         * apply legit_remove; exact Hlg.
         * apply StB; [apply seq_in_remove_same | | reflexivity].
@@ -477,7 +490,7 @@ Section Step.
       { apply Hfirst; [simpl; rewrite Hshape|]; reflexivity. }
       assert (Hpq : seq_in (c_s x) (remove_seq cs q) = seq_in (c_s x) q).
       { apply seq_in_remove_other. congruence. }
-      match goal with |- context [exec_call ?a ?b] => set (w' := exec_call a b) end.
+      match goal with |- context [exec_call inn ?a ?b] => set (w' := exec_call inn a b) end.
       destruct Hstate as [Hp H0 H1 Hsu Hfa | Hp H0 Hfa | Hp _ H1 _]; prj.
       + (* in time: the result is recorded, the timeout cancelled *)
         subst su fa.
@@ -487,13 +500,13 @@ Section Step.
                                (mkSp (match o with Succeed v => Some v | Fail _ => None end)
                                      (match o with Succeed _ => None | Fail e => Some (EUser e) end)
                                      [] false (Some (c_s x)) (c_saved x))
-                               (ran ++ [1]) (c_re x)).
+                               (ran ++ [1]) re).
         { subst w'. unfold exec_call, popw, got, timeout_pending, log_ran, set_ran, set_r. prj.
           fold (seq_in (c_s x) (remove_seq cs q)). rewrite Hpq, Hp.
           destruct spn, o; reflexivity. }
         rewrite Ew'. clear w' Ew'. rewrite Hrunf. prj.
         split; [|split; [|split]].
-        * constructor; unfold E; prj; try reflexivity.
+        * constructor; unfold E; prj; try reflexivity; try exact Hre.
           -- apply nodup_remove_seq, nodup_remove_seq; exact Hnd.
           -- apply legit_remove, legit_remove; exact Hlg.
           -- apply StC; [apply seq_in_remove_same | | | ].
@@ -516,13 +529,13 @@ Section Step.
       + (* after the timeout call has run: cancel() raises AlreadyCalled, nothing is recorded *)
         assert (Ew' : w' = mkW (mkReactor nw sq (remove_seq cs q) [] (c_rd x) (if spn then false else run) false orc')
                                SFake (c_sig x) true (mkSp su fa [] false (Some (c_s x)) (c_saved x))
-                               (ran ++ [1]) (c_re x)).
+                               (ran ++ [1]) re).
         { subst w'. unfold exec_call, popw, got, timeout_pending, log_ran, set_ran, set_r. prj.
           fold (seq_in (c_s x) (remove_seq cs q)). rewrite Hpq, Hp.
           destruct spn; reflexivity. }
         rewrite Ew'. clear w' Ew'. rewrite Hrunf. prj.
         split; [|split; [|split]].
-        * constructor; unfold E; prj; try reflexivity.
+        * constructor; unfold E; prj; try reflexivity; try exact Hre.
           -- apply nodup_remove_seq; exact Hnd.
           -- apply legit_remove; exact Hlg.
           -- apply StB; [congruence | | exact Hfa].
@@ -544,14 +557,14 @@ Section Step.
       { apply Hfirst; [simpl; exact Hstop | reflexivity]. }
       assert (Hpq : seq_in (c_s x) (remove_seq cs q) = seq_in (c_s x) q).
       { apply seq_in_remove_other. congruence. }
-      match goal with |- context [exec_call ?a ?b] => set (w' := exec_call a b) end.
+      match goal with |- context [exec_call inn ?a ?b] => set (w' := exec_call inn a b) end.
       assert (Ew' : w' = mkW (mkReactor nw sq (remove_seq cs q) [] (c_rd x) false false orc')
                              SFake (c_sig x) true (mkSp su fa [] spn (Some (c_s x)) (c_saved x))
-                             (ran ++ [2]) (c_re x)).
+                             (ran ++ [2]) re).
       { subst w'. reflexivity. }
       rewrite Ew'. clear w' Ew'. prj.
       split; [|split; [|split]].
-      + constructor; unfold E; prj; try reflexivity.
+      + constructor; unfold E; prj; try reflexivity; try exact Hre.
         * apply nodup_remove_seq; exact Hnd.
         * apply legit_remove; exact Hlg.
         * eapply st_ok_ext; [exact Hstate | exact Hpq | |]; rewrite crash_toks_app, has_app; apply orb_false_r.
@@ -570,14 +583,14 @@ Section Step.
       { apply seq_in_remove_other. congruence. }
       assert (Hct : crash_toks (ran ++ [tk]) = crash_toks ran).
       { rewrite crash_toks_app. unfold crash_toks at 2. simpl. rewrite (leb_gt2 tk Hleg). apply app_nil_r. }
-      match goal with |- context [exec_call ?a ?b] => set (w' := exec_call a b) end.
+      match goal with |- context [exec_call inn ?a ?b] => set (w' := exec_call inn a b) end.
       assert (Ew' : w' = mkW (mkReactor nw sq (remove_seq cs q) [] (c_rd x) run false orc')
                              SFake (c_sig x) true (mkSp su fa [] spn (Some (c_s x)) (c_saved x))
-                             (ran ++ [tk]) (c_re x)).
+                             (ran ++ [tk]) re).
       { subst w'. reflexivity. }
       rewrite Ew'. clear w' Ew'. prj.
       split; [|split; [|split]].
-      + constructor; unfold E; prj; try reflexivity; rewrite ?Hct.
+      + constructor; unfold E; prj; try reflexivity; try exact Hre; rewrite ?Hct.
         * apply nodup_remove_seq; exact Hnd.
         * apply legit_remove; exact Hlg.
         * eapply st_ok_ext; [exact Hstate | exact Hpq | reflexivity | reflexivity].
@@ -585,6 +598,36 @@ Section Step.
           intros k t Hev. destruct (Hpres k t Hev) as [c' [Hc' [Hk Ht]]]. exists c'. split; [|split; assumption].
           apply in_remove_seq. split; [exact Hc'|]. intro Hseq.
           assert (c' = mkCall ct cs (ANoop tk)) by (apply (nodup_seq_inj q); assumption).
+          subst c'. unfold tokc in Hk; simpl in Hk. apply ev_time_le2 in Hev. lia.
+        * exact Hlive.
+        * exact Hearly.
+        * pose proof (perm_move q _ ran (c_rd x) Hnd Hin) as HH. unfold tokc in HH at 1 2 4; prj.
+          simpl tok_of in HH. rewrite HH; [exact Hperm|].
+          unfold nt, not_timeout_tok, tok_timeout. destruct tk; [lia | reflexivity].
+      + rewrite Hct. exact HE.
+      + apply incl_remove.
+      + exact (remove_seq_length_lt q _ Hin).
+    - (* a delayed call of the function's that tries a re-entrant run: refused, nothing else changes *)
+      assert (Hcs : cs <> c_s x) by (intro HH; specialize (Hs_act HH); discriminate).
+      assert (Hpq : seq_in (c_s x) (remove_seq cs q) = seq_in (c_s x) q).
+      { apply seq_in_remove_other. congruence. }
+      assert (Hct : crash_toks (ran ++ [tk]) = crash_toks ran).
+      { rewrite crash_toks_app. unfold crash_toks at 2. simpl. rewrite (leb_gt2 tk Hleg). apply app_nil_r. }
+      match goal with |- context [exec_call inn ?a ?b] => set (w' := exec_call inn a b) end.
+      assert (Ew' : w' = mkW (mkReactor nw sq (remove_seq cs q) [] (c_rd x) run false orc')
+                             SFake (c_sig x) true (mkSp su fa [] spn (Some (c_s x)) (c_saved x))
+                             (ran ++ [tk]) (re ++ [true])).
+      { subst w'. unfold exec_call, popw, try_reenter, log_ran, set_ran, set_r. prj. rewrite Hinn by reflexivity. reflexivity. }
+      rewrite Ew'. clear w' Ew'. prj.
+      split; [|split; [|split]].
+      + constructor; unfold E; prj; try reflexivity; rewrite ?Hct; [| |apply reentry_okb_snoc; exact Hre| | | | |].
+        * apply nodup_remove_seq; exact Hnd.
+        * apply legit_remove; exact Hlg.
+        * eapply st_ok_ext; [exact Hstate | exact Hpq | reflexivity | reflexivity].
+        * intro Hr. destruct (Hphase Hr) as [He [Hsp Hpres]]. split; [exact He|]. split; [exact Hsp|].
+          intros k t Hev. destruct (Hpres k t Hev) as [c' [Hc' [Hk Ht]]]. exists c'. split; [|split; assumption].
+          apply in_remove_seq. split; [exact Hc'|]. intro Hseq.
+          assert (c' = mkCall ct cs (ATry tk oo)) by (apply (nodup_seq_inj q); assumption).
           subst c'. unfold tokc in Hk; simpl in Hk. apply ev_time_le2 in Hev. lia.
         * exact Hlive.
         * exact Hearly.
@@ -602,6 +645,8 @@ End Step.
 Section LoopProof.
   Variable x : ctx.
   Variable batch : bool.
+  Variable inn : world -> res value exc * world.
+  Hypothesis Hinn : refuses inn.
 
   Lemma pop_at_spec t (r : rtor) c r' : pop_at t r = Some (c, r') ->
     In c (queue r) /\ dc_time c = t /\ exists nw orc',
@@ -614,8 +659,8 @@ Section LoopProof.
 
   Lemma drain_ok : forall k tm w, Inv x w ->
     (forall c, In c (queue (w_r w)) -> tm <= dc_time c) -> (E w <> [] -> tm = mstar x) ->
-    Inv x (drain w_r set_r exec_call k tm w)
-    /\ length (queue (w_r (drain w_r set_r exec_call k tm w))) <= length (queue (w_r w)).
+    Inv x (drain w_r set_r (exec_call inn) k tm w)
+    /\ length (queue (w_r (drain w_r set_r (exec_call inn) k tm w))) <= length (queue (w_r w)).
   Proof.
     induction k as [|k IH]; intros tm w HI Hmin HE; simpl; [split; [exact HI | apply Nat.le_refl]|].
     destruct (pop_at tm (w_r w)) as [[c r']|] eqn:Ep; [|split; [exact HI | apply Nat.le_refl]].
@@ -623,28 +668,28 @@ Section LoopProof.
     assert (Hminc : forall c', In c' (queue (w_r w)) -> dc_time c <= dc_time c').
     { intros c' Hc'. rewrite Ht. apply Hmin; exact Hc'. }
     assert (HEc : E w <> [] -> dc_time c = mstar x) by (intro H; rewrite Ht; apply HE; exact H).
-    destruct (exec_ok x w c nw orc' HI Hin Hminc HEc) as [HI1 [HE1 [Hincl Hlen]]].
+    destruct (exec_ok x inn Hinn w c nw orc' HI Hin Hminc HEc) as [HI1 [HE1 [Hincl Hlen]]].
     fold (popw c nw orc' w).
-    destruct (IH tm (exec_call c (popw c nw orc' w)) HI1) as [HI2 Hlen2].
+    destruct (IH tm (exec_call inn c (popw c nw orc' w)) HI1) as [HI2 Hlen2].
     - intros c' Hc'. apply Hmin. apply Hincl. exact Hc'.
     - intro H. rewrite <- Ht. apply HE1. exact H.
     - split; [exact HI2|]. eapply Nat.le_trans; [exact Hlen2|]. apply Nat.lt_le_incl. exact Hlen.
   Qed.
 
   Lemma loop_S fuel w :
-    loop w_r set_r exec_call batch (S fuel) w =
+    loop w_r set_r (exec_call inn) batch (S fuel) w =
     if negb (running (w_r w)) then (LDone, w) else
     match pop_next (w_r w) with
     | None => (LHung, set_r (set_running false (w_r w)) w)
     | Some (c, r') =>
-        let w1 := exec_call c (set_r r' w) in
-        loop w_r set_r exec_call batch fuel
-             (if batch then drain w_r set_r exec_call (length (queue r')) (dc_time c) w1 else w1)
+        let w1 := exec_call inn c (set_r r' w) in
+        loop w_r set_r (exec_call inn) batch fuel
+             (if batch then drain w_r set_r (exec_call inn) (length (queue r')) (dc_time c) w1 else w1)
     end.
   Proof. reflexivity. Qed.
 
   Lemma loop_ok : forall fuel w, Inv x w -> length (queue (w_r w)) < fuel ->
-    exists w', loop w_r set_r exec_call batch fuel w = (LDone, w') /\ Inv x w' /\ running (w_r w') = false.
+    exists w', loop w_r set_r (exec_call inn) batch fuel w = (LDone, w') /\ Inv x w' /\ running (w_r w') = false.
   Proof.
     induction fuel as [|fuel IH]; intros w HI Hlen; [inversion Hlen|].
     rewrite loop_S. destruct (running (w_r w)) eqn:Hrun; simpl negb; cbv iota.
@@ -657,9 +702,9 @@ Section LoopProof.
     rewrite Ep. apply pop_from_spec in Ep as [Hcand [nw [orc' ->]]].
     apply candidates_in in Hcand as [Hin Hmin].
     assert (HEc : E w <> [] -> dc_time c = mstar x) by (intro H; congruence).
-    destruct (exec_ok x w c nw orc' HI Hin Hmin HEc) as [HI1 [HE1 [Hincl Hlen1]]].
+    destruct (exec_ok x inn Hinn w c nw orc' HI Hin Hmin HEc) as [HI1 [HE1 [Hincl Hlen1]]].
     fold (popw c nw orc' w). cbv zeta.
-    set (w1 := exec_call c (popw c nw orc' w)) in *.
+    set (w1 := exec_call inn c (popw c nw orc' w)) in *.
     destruct batch.
     - destruct (drain_ok (length (remove_seq (dc_seq c) (queue (w_r w)))) (dc_time c) w1 HI1) as [HI2 Hlen2].
       + intros c' Hc'. apply Hmin. apply Hincl. exact Hc'.
@@ -672,10 +717,10 @@ Section LoopProof.
 End LoopProof.
 
 (* ================= what the function leaves with the reactor ================= *)
-Fixpoint mk_extras (n : time) (s i : nat) (ds : list time) : list call :=
+Fixpoint mk_extras (n : time) (s i : nat) (ds : list (time * option bool)) : list call :=
   match ds with
   | [] => []
-  | d :: r => mkCall (n + d) s (ANoop (tok_extra i)) :: mk_extras n (S s) (S i) r
+  | d :: r => mkCall (n + fst d) s (extra_action i (snd d)) :: mk_extras n (S s) (S i) r
   end.
 
 Lemma schedule_extras_eq : forall ds i (r : rtor) st sg fl sp ran re,
@@ -704,17 +749,21 @@ Lemma mk_extras_seqs n s i ds : map dc_seq (mk_extras n s i ds) = seq s (length 
 Proof. revert s i; induction ds as [|d ds IH]; intros s i; simpl; [reflexivity|]. rewrite IH. reflexivity. Qed.
 
 Lemma mk_extras_toks n s i ds : map tokc (mk_extras n s i ds) = map tok_extra (seq i (length ds)).
-Proof. revert s i; induction ds as [|d ds IH]; intros s i; simpl; [reflexivity|]. rewrite IH. reflexivity. Qed.
+Proof.
+  revert s i; induction ds as [|d ds IH]; intros s i; simpl; [reflexivity|]. rewrite IH.
+  destruct d as [d [o|]]; reflexivity.
+Qed.
 
 Lemma mk_extras_length n s i ds : length (mk_extras n s i ds) = length ds.
 Proof. revert s i; induction ds as [|d ds IH]; intros s i; simpl; [reflexivity|]. rewrite IH. reflexivity. Qed.
 
 Lemma mk_extras_in n s i ds c : In c (mk_extras n s i ds) ->
-  (exists j, dc_act c = ANoop (tok_extra j)) /\ s <= dc_seq c < s + length ds.
+  (exists j, dc_act c = ANoop (tok_extra j) \/ exists o, dc_act c = ATry (tok_extra j) o)
+  /\ s <= dc_seq c < s + length ds.
 Proof.
   revert s i; induction ds as [|d ds IH]; intros s i; simpl; [intros []|].
   intros [<-|H]; simpl.
-  - split; [eexists; reflexivity | lia].
+  - split; [|lia]. exists i. destruct d as [d [o|]]; simpl; [right; eexists; reflexivity | left; reflexivity].
   - destruct (IH _ _ H) as [H1 H2]. split; [exact H1 | lia].
 Qed.
 
@@ -734,13 +783,24 @@ Proof.
   - apply IH; [|exact Hn]. intros y Hy. specialize (Hb _ Hy). lia.
 Qed.
 
-Lemma loop_stopped batch fuel w : running (w_r w) = false ->
-  loop w_r set_r exec_call batch fuel w = (LDone, w).
+Lemma loop_stopped inn batch fuel w : running (w_r w) = false ->
+  loop w_r set_r (exec_call inn) batch fuel w = (LDone, w).
 Proof. intro H. destruct fuel; simpl; rewrite H; reflexivity. Qed.
 
 (* a run() tried from inside the function is refused: nothing changes *)
-Lemma inner_refused iters batch w : w_flag w = true -> inner_run iters batch w = (Raised EReentry, w).
-Proof. intro H. unfold inner_run, guarded. rewrite H. reflexivity. Qed.
+Lemma inner_refused iters batch : refuses (inner_run iters batch).
+Proof. intros w H. unfold inner_run, guarded. rewrite H. reflexivity. Qed.
+
+(* the attempts the function makes itself, one after the other *)
+Lemma try_all_eq inn (Hinn : refuses inn) : forall l w, w_flag w = true ->
+  fold_left (fun w o => try_reenter inn o w) l w = set_reentry (w_reentry w ++ map (fun _ => true) l) w.
+Proof.
+  induction l as [|o l IH]; intros w Hw; simpl.
+  - rewrite app_nil_r. destruct w; reflexivity.
+  - unfold try_reenter at 2. rewrite (Hinn w Hw). simpl is_reentry.
+    rewrite IH by (destruct w; exact Hw). destruct w as [r st sg fl sp ran re]. unfold set_reentry. prj.
+    rewrite <- app_assoc. reflexivity.
+Qed.
 
 (* the pieces of the queue after the function has been called *)
 Definition q_stop (n : time) (s : nat) (f : fn) : list call :=
@@ -752,7 +812,7 @@ Definition sig_fn (f : fn) (sg : sigtab) : sigtab :=
 Definition is_sync (f : fn) : bool := match f_shape f with Sync _ _ => true | _ => false end.
 
 Section AfterFunction.
-  Variables (n T : time) (f : fn) (sq : nat) (orc : list nat) (sg SV : sigtab) (re : option bool) (iters : nat) (batch : bool).
+  Variables (n T : time) (f : fn) (sq : nat) (orc : list nat) (sg SV : sigtab) (re : list bool) (iters : nat) (batch : bool).
 
   Definition tmo : call := mkCall (n + T) sq ATimeout.
   Definition k_ex := length (f_extras f).
@@ -761,7 +821,7 @@ Section AfterFunction.
   Definition q_mid : list call := mk_extras n (S sq) 0 (f_extras f) ++ q_stop n s_stop f.
   Definition q_rest : list call := q_mid ++ q_fire n s_fire f.
   Definition rd2 : list nat := map tok_sel (seq 0 (f_sels f)).
-  Definition re2 : option bool := if f_reenter f then Some true else re.
+  Definition re2 : list bool := re ++ map (fun _ => true) (f_reenter f).
 
   (* the world in which the callWhenRunning hook calls the function *)
   Definition w_hook : world :=
@@ -812,7 +872,8 @@ Section AfterFunction.
     unfold w_pre, q_mid, rd2, re2, sig_fn, s_fire, s_stop, q_stop, k_ex.
     destruct f as [shape extras sels stop stop_now reenter setsig].
     cbn [f_shape f_extras f_sels f_stop f_stop_now f_reenter f_setsig].
-    destruct stop as [st|], setsig as [[ss hh]|], reenter, stop_now; rewrite ?app_nil_r; reflexivity.
+    destruct stop as [st|], setsig as [[ss hh]|], stop_now;
+      rewrite (try_all_eq _ (inner_refused iters batch)) by reflexivity; rewrite ?app_nil_r; reflexivity.
   Qed.
 
   Lemma shape_step :
@@ -835,7 +896,7 @@ Section AfterFunction.
   Proof. rewrite run_function_pre. apply shape_step. Qed.
 
   (* ---- the loop invariant holds when the loop is entered ---- *)
-  Definition cx : ctx := mkCtx n T f sq (sig_fn f sg) re2 SV rd2.
+  Definition cx : ctx := mkCtx n T f sq (sig_fn f sg) SV rd2.
 
   Lemma q_all_nodup : NoDup (map dc_seq (tmo :: q_rest)).
   Proof.
@@ -855,7 +916,7 @@ Section AfterFunction.
     - apply Forall_forall. intros c Hc. split.
       + intro Hs. apply q_rest_seqs in Hc. simpl in Hs. lia.
       + unfold q_rest, q_mid in Hc. apply in_app_or in Hc as [Hc|Hc]; [apply in_app_or in Hc as [Hc|Hc]|].
-        * apply mk_extras_in in Hc as [[j Hj] _]. rewrite Hj. unfold tok_extra. lia.
+        * apply mk_extras_in in Hc as [[j [Hj|[o Hj]]] _]; rewrite Hj; unfold tok_extra; lia.
         * unfold q_stop in Hc. destruct (f_stop f) as [st|] eqn:Es; simpl in Hc; [|destruct Hc].
           destruct Hc as [<-|[]]. simpl. exists st. split; [exact Es | reflexivity].
         * unfold q_fire in Hc. destruct (f_shape f) as [|t o|] eqn:Es; simpl in Hc; try destruct Hc as [<-|[]]; try destruct Hc.
@@ -884,15 +945,23 @@ Section AfterFunction.
   Lemma rd2_toks t : In t rd2 -> 100 <= t.
   Proof. unfold rd2. intro H. apply in_map_iff in H as [j [<- _]]. unfold tok_sel. lia. Qed.
 
-  Lemma after_inv : is_sync f = false -> f_stop_now f = false -> Inv cx w_after.
+  Lemma re2_ok : forallb (fun b => b) re = true -> reentry_okb f re2 = true.
   Proof.
-    intros Hsy Hsn.
+    intro H. unfold reentry_okb, re2. rewrite forallb_app, H, app_length, map_length. simpl.
+    apply andb_true_iff. split; [|apply Nat.leb_le; lia].
+    induction (f_reenter f) as [|o l IH]; simpl; [reflexivity | exact IH].
+  Qed.
+
+  Lemma after_inv : forallb (fun b => b) re = true -> is_sync f = false -> f_stop_now f = false -> Inv cx w_after.
+  Proof.
+    intros Hre0 Hsy Hsn.
     assert (Ew : w_after = mkW (mkReactor n (length (q_fire n s_fire f) + s_fire) (tmo :: q_rest) [] rd2 true false orc)
                                SFake (sig_fn f sg) true (mkSp None None [] true (Some sq) SV) [] re2).
     { unfold w_after. unfold is_sync in Hsy. rewrite Hsn. destruct (f_shape f); [discriminate| |]; reflexivity. }
     rewrite Ew. constructor; unfold E; prj; try reflexivity.
     - exact q_all_nodup.
     - exact q_all_legit.
+    - exact (re2_ok Hre0).
     - apply StA; try reflexivity. simpl. rewrite Nat.eqb_refl. reflexivity.
     - intros _. split; [reflexivity|]. split; [reflexivity|]. exact q_all_present.
     - left; reflexivity.
@@ -946,24 +1015,24 @@ Record Idle (w : world) : Prop := {
 Definition sig_run (sg : sigtab) : sigtab := fold_left (fun t s => setsig s h_reactor t) reactor_signals sg.
 Definition saved_of (sg : sigtab) : sigtab := map (fun s => (s, getsig s sg)) preserved_signals.
 
-Definition finish (real : stopfn) (e : loop_end) (wl : world) : res value exc * world :=
+Definition finish inn (real : stopfn) (e : loop_end) (wl : world) : res value exc * world :=
   let w := restore_signals (set_stop real wl) in
   match e with
-  | LDone => (get_result (w_sp w), clean 0 w)
+  | LDone => (get_result (w_sp w), clean inn 0 w)
   | _ => (Raised EOther, w)
   end.
 
 Lemma run_body_eq batch T f n sq orc st sg su fa spn tc sv re :
   run_body (inner_run 0 batch) 0 batch T f
     (mkW (mkReactor n sq [] [] [] false false orc) st sg true (mkSp su fa [] spn tc sv) [] re)
-  = let '(e, wl) := loop w_r set_r exec_call batch (1 + length (f_extras f) + 4)
+  = let '(e, wl) := loop w_r set_r (exec_call (inner_run 0 batch)) batch (1 + length (f_extras f) + 4)
                          (run_function (inner_run 0 batch) f (w_hook n T sq orc (sig_run sg) (saved_of sg) re)) in
-    finish st e wl.
+    finish (inner_run 0 batch) st e wl.
 Proof. reflexivity. Qed.
 
-Lemma finish_ok real wl : running (w_r wl) = false -> hooks (w_r wl) = [] -> really_stopped (w_r wl) = false ->
+Lemma finish_ok inn real wl : running (w_r wl) = false -> hooks (w_r wl) = [] -> really_stopped (w_r wl) = false ->
   w_flag wl = true -> sp_junk (w_sp wl) = [] ->
-  exists w3, finish real LDone wl = (get_result (w_sp wl), w3)
+  exists w3, finish inn real LDone wl = (get_result (w_sp wl), w3)
     /\ Idle (set_flag false w3) /\ w_stop w3 = real
     /\ sp_junk (w_sp w3) = map tokc (queue (w_r wl)) ++ readers (w_r wl)
     /\ w_ran w3 = w_ran wl /\ w_reentry w3 = w_reentry wl
@@ -994,8 +1063,9 @@ Qed.
 
 Lemma legit_tok0 x c : legit x c -> tokc c = 0 -> dc_seq c = c_s x.
 Proof.
-  unfold legit, tokc. intros [_ H] Ht. destruct (dc_act c) as [|o| |tk|]; simpl in *; try discriminate.
+  unfold legit, tokc. intros [_ H] Ht. destruct (dc_act c) as [|o| |tk|tk oo|]; simpl in *; try discriminate.
   - apply H.
+  - lia.
   - lia.
   - destruct H.
 Qed.
@@ -1003,15 +1073,15 @@ Qed.
 Definition restored (sg0 sg' : sigtab) : Prop :=
   forall s, In s preserved_signals -> getsig s sg0 <> h_none -> getsig s sg' = getsig s sg0.
 
-Theorem run_fresh batch T f w : Idle w -> sp_junk (w_sp w) = [] -> w_ran w = [] ->
+Theorem run_fresh batch T f w : Idle w -> sp_junk (w_sp w) = [] -> w_ran w = [] -> w_reentry w = [] ->
   exists r w', run 0 batch T f w = (r, w') /\ Idle w' /\ w_stop w' = w_stop w
     /\ allowed T f (w_ran w') r = true
-    /\ w_reentry w' = (if f_reenter f then Some true else w_reentry w)
+    /\ reentry_okb f (w_reentry w') = true
     /\ Permutation (filter nt (w_ran w') ++ filter nt (sp_junk (w_sp w'))) (sched_tokens f)
     /\ (In tok_timeout (sp_junk (w_sp w')) -> r = Raised ENoResult)
     /\ restored (w_sig w) (w_sig w').
 Proof.
-  intros [Hrun Hq Hrd Hhk Hrs Hfl] Hjk Hran.
+  intros [Hrun Hq Hrd Hhk Hrs Hfl] Hjk Hran Hre0.
   destruct w as [[n sq q h rd run rs orc] st sg fl [su fa jk spn tc sv] ran re]. prj. subst.
   unfold run, guarded. prj. cbv iota. unfold set_flag at 1. prj.
   rewrite run_body_eq, run_function_eq.
@@ -1022,50 +1092,51 @@ Proof.
   destruct (is_sync f) eqn:Hsy; [|destruct (f_stop_now f) eqn:Hsn].
   - (* the function returned a result synchronously *)
     unfold is_sync in Hsy. destruct (f_shape f) as [how o| |] eqn:Es; try discriminate.
-    assert (Ew : w_after n T f sq orc SG SV re =
+    assert (Ew : w_after n T f sq orc SG SV [] =
                  mkW (mkReactor n (s_fire n f sq) (q_rest n f sq) [] (rd2 f) false false orc) SFake (sig_fn f SG) true
                      (mkSp (match o with Succeed v => Some v | Fail _ => None end)
                            (match o with Succeed _ => None | Fail e => Some (EUser e) end)
-                           [] false (Some sq) SV) [] (re2 f re)).
+                           [] false (Some sq) SV) [] (re2 f [])).
     { unfold w_after. rewrite Es. reflexivity. }
     rewrite Ew. rewrite loop_stopped by reflexivity.
-    match goal with |- context [finish ?rl LDone ?wl] => destruct (finish_ok rl wl) as [w3 [Ef [Hid [Hst3 [Hj [Hr [Hre Hsg]]]]]]]; try reflexivity end.
+    match goal with |- context [finish ?ii ?rl LDone ?wl] => destruct (finish_ok ii rl wl) as [w3 [Ef [Hid [Hst3 [Hj [Hr [Hre Hsg]]]]]]]; try reflexivity end.
     rewrite Ef. prj. eexists; eexists. split; [reflexivity|]. split; [exact Hid|]. split; [exact Hst3|].
     unfold set_flag; prj. rewrite Hj, Hr, Hre. prj.
-    split; [|split; [reflexivity|split; [|split]]].
+    split; [|split; [exact (re2_ok f [] eq_refl)|split; [|split]]].
     + unfold allowed. rewrite Es. apply result_eqb_spec. destruct o; reflexivity.
     + simpl. rewrite filter_app, filter_nt_rd2. rewrite q_rest_toks. apply Permutation_refl.
     + intro Hin. exfalso. apply in_app_or in Hin as [Hin|Hin].
       * apply in_map_iff in Hin as [c [Ht Hc]].
-        pose proof (q_all_legit n T f sq SG SV re) as Hl. inversion Hl as [|? ? _ Hl']; subst.
+        pose proof (q_all_legit n T f sq SG SV) as Hl. inversion Hl as [|? ? _ Hl']; subst.
         eapply Forall_forall in Hl'; [|exact Hc]. apply legit_tok0 in Hl'; [|exact Ht].
         apply q_rest_seqs in Hc. simpl in Hl'. lia.
       * apply rd2_toks in Hin. unfold tok_timeout in Hin. lia.
     + apply (Hrest w3 _ Hsg).
   - (* the function stopped the reactor itself and returned an unfired Deferred *)
-    assert (Ew : w_after n T f sq orc SG SV re =
+    assert (Ew : w_after n T f sq orc SG SV [] =
                  mkW (mkReactor n (length (q_fire n (s_fire n f sq) f) + s_fire n f sq) (tmo n T sq :: q_rest n f sq) [] (rd2 f) false false orc)
-                     SFake (sig_fn f SG) true (mkSp None None [] true (Some sq) SV) [] (re2 f re)).
+                     SFake (sig_fn f SG) true (mkSp None None [] true (Some sq) SV) [] (re2 f [])).
     { unfold w_after. unfold is_sync in Hsy. rewrite Hsn. destruct (f_shape f); [discriminate| |]; reflexivity. }
     rewrite Ew. rewrite loop_stopped by reflexivity.
-    match goal with |- context [finish ?rl LDone ?wl] => destruct (finish_ok rl wl) as [w3 [Ef [Hid [Hst3 [Hj [Hr [Hre Hsg]]]]]]]; try reflexivity end.
+    match goal with |- context [finish ?ii ?rl LDone ?wl] => destruct (finish_ok ii rl wl) as [w3 [Ef [Hid [Hst3 [Hj [Hr [Hre Hsg]]]]]]]; try reflexivity end.
     rewrite Ef. prj. eexists; eexists. split; [reflexivity|]. split; [exact Hid|]. split; [exact Hst3|].
     unfold set_flag; prj. rewrite Hj, Hr, Hre. prj.
-    split; [|split; [reflexivity|split; [|split]]].
+    split; [|split; [exact (re2_ok f [] eq_refl)|split; [|split]]].
     + unfold allowed. rewrite Hsn. unfold is_sync in Hsy. destruct (f_shape f); [discriminate| |]; reflexivity.
     + simpl. rewrite filter_app, filter_nt_rd2. rewrite q_rest_toks. apply Permutation_refl.
     + intros _. reflexivity.
     + apply (Hrest w3 _ Hsg).
   - (* the reactor spins until one of the three events ends the run *)
-    pose proof (after_inv n T f sq orc SG SV re Hsy Hsn) as HI0.
-    destruct (loop_ok (cx n T f sq SG SV re) batch (1 + length (f_extras f) + 4) _ HI0) as [wl [El [HI Hrunl]]].
-    { assert (Hl : length (queue (w_r (w_after n T f sq orc SG SV re))) <= 1 + length (f_extras f) + 2).
+    pose proof (after_inv n T f sq orc SG SV [] eq_refl Hsy Hsn) as HI0.
+    destruct (loop_ok (cx n T f sq SG SV) batch (inner_run 0 batch) (inner_refused 0 batch)
+                      (1 + length (f_extras f) + 4) _ HI0) as [wl [El [HI Hrunl]]].
+    { assert (Hl : length (queue (w_r (w_after n T f sq orc SG SV []))) <= 1 + length (f_extras f) + 2).
       { unfold w_after. unfold is_sync in Hsy. destruct (f_shape f) eqn:Es; [discriminate| |]; prj; simpl length;
           unfold q_rest, q_mid; rewrite !app_length, mk_extras_length; unfold q_stop, q_fire; rewrite Es;
           destruct (f_stop f); simpl; lia. }
       lia. }
     rewrite El.
-    destruct (finish_ok st wl Hrunl (i_hooks _ _ HI) (i_rs _ _ HI) (i_flag _ _ HI) (i_junk _ _ HI))
+    destruct (finish_ok (inner_run 0 batch) st wl Hrunl (i_hooks _ _ HI) (i_rs _ _ HI) (i_flag _ _ HI) (i_junk _ _ HI))
       as [w3 [Ef [Hid [Hst3 [Hj [Hr [Hre Hsg]]]]]]].
     rewrite Ef. eexists; eexists. split; [reflexivity|]. split; [exact Hid|]. split; [exact Hst3|].
     unfold set_flag; prj. rewrite Hj, Hr, Hre.
@@ -1083,7 +1154,7 @@ Proof.
           rewrite He. unfold estar. simpl. apply Nat.eqb_refl.
         - apply result_eqb_spec. exact Hdec. }
       destruct (f_shape f); [discriminate| |]; exact Hgoal.
-    + rewrite (i_re _ _ HI). reflexivity.
+    + exact (i_re _ _ HI).
     + rewrite filter_app, (i_rd _ _ HI). simpl c_rd. rewrite filter_nt_rd2. exact (i_perm _ _ HI).
     + intro Hin. rewrite (i_rd _ _ HI) in Hin. simpl c_rd in Hin. apply in_app_or in Hin as [Hin|Hin].
       * apply in_map_iff in Hin as [c [Ht Hc]].
@@ -1141,7 +1212,7 @@ Proof.
 Qed.
 
 Definition prepare (rs : runspec) (w : world) : world :=
-  set_reentry None (set_ran [] (install_stop (r_stop rs)
+  set_reentry [] (set_ran [] (install_stop (r_stop rs)
     (preinstall (r_pre rs) (if r_clear rs then clear_junk w else w)))).
 
 Lemma idle_prepare rs w : Idle w -> Idle (prepare rs w).
@@ -1175,13 +1246,13 @@ Proof.
   { subst w3. unfold prepare, set_reentry, set_ran, install_stop. prj.
     destruct (r_stop rs); unfold set_stop; prj; apply preinstall_sigs; exact Hwf. }
   assert (Hran3 : w_ran w3 = []) by reflexivity.
-  assert (Hre3 : w_reentry w3 = None) by reflexivity.
+  assert (Hre3 : w_reentry w3 = []) by reflexivity.
   assert (Hj3 : sp_junk (w_sp w3) = if r_clear rs then [] else sp_junk (w_sp w)).
   { subst w3. unfold prepare, install_stop. destruct w as [r st sg fl [su fa jk spn tc sv] ran re].
     destruct (r_clear rs), (r_stop rs); reflexivity. }
   destruct (sp_junk (w_sp w3)) as [|j0 jr] eqn:Ej.
   - (* no stale junk: the run takes place *)
-    destruct (run_fresh batch (r_timeout rs) (r_fn rs) w3 Hid3 Ej Hran3)
+    destruct (run_fresh batch (r_timeout rs) (r_fn rs) w3 Hid3 Ej Hran3 Hre3)
       as [r [w' [Er [Hid' [Hst' [Hal [Hre [Hperm [Hown Hrest]]]]]]]]].
     rewrite Er. cbn [fst snd]. split; [|split; [exact Hid' | split; [reflexivity | rewrite Hst'; exact Hst3]]].
     assert (Hstale : (if r_clear rs then [] else sort_toks (sp_junk (w_sp w))) = []).
@@ -1193,11 +1264,7 @@ Proof.
     { rewrite <- Hsig3. apply sigs_okb_map. intros s Hs.
       destruct (Nat.eqb (getsig s (w_sig w3)) h_none) eqn:En; [left; apply Nat.eqb_eq; exact En|].
       right. apply Hrest; [apply tab_preserved; exact Hs | apply Nat.eqb_neq; exact En]. }
-    rewrite Hsigs, Hal, natlist_eqb_refl, Hre, Hre3. cbn [andb].
-    assert (Hr : option_eqb Bool.eqb (if f_reenter (r_fn rs) then Some true else None)
-                            (if f_reenter (r_fn rs) then Some true else None) = true).
-    { apply optbool_eqb_spec. reflexivity. }
-    rewrite Hr. cbn [andb]. apply andb_true_iff. split.
+    rewrite Hsigs, Hal, natlist_eqb_refl, Hre. cbn [andb]. apply andb_true_iff. split.
     + apply perm_perm_eqb. etransitivity; [|exact Hperm].
       apply Permutation_app.
       * symmetry. apply sort_toks_perm.
@@ -1243,15 +1310,15 @@ Qed.
 
 (* ================= the clauses, on the model's own state ================= *)
 (* a reactor at rest, driven by a Spinner that is not inside run(), with the harness's log reset *)
-Definition Ready (w : world) : Prop := Idle w /\ w_ran w = [].
+Definition Ready (w : world) : Prop := Idle w /\ w_ran w = [] /\ w_reentry w = [].
 
 Definition run1 (batch : bool) (T : time) (f : fn) (w : world) := run spinner_iterations batch T f w.
 
 Theorem clause_result batch T f w : Ready w -> sp_junk (w_sp w) = [] ->
   Allowed T f (w_ran (snd (run1 batch T f w))) (fst (run1 batch T f w)).
 Proof.
-  intros [Hid Hran] Hj. unfold run1. rewrite tab_iterations.
-  destruct (run_fresh batch T f w Hid Hj Hran) as [r [w' [Er [_ [_ [Hal _]]]]]]. rewrite Er. cbn [fst snd].
+  intros [Hid [Hran Hre0]] Hj. unfold run1. rewrite tab_iterations.
+  destruct (run_fresh batch T f w Hid Hj Hran Hre0) as [r [w' [Er [_ [_ [Hal _]]]]]]. rewrite Er. cbn [fst snd].
   apply allowed_sound. exact Hal.
 Qed.
 
@@ -1331,12 +1398,15 @@ Proof.
     intros [|[|[|k]]] H; try reflexivity; try discriminate; injection H as H; lia.
 Qed.
 
-Theorem clause_reentry batch T f w : Ready w -> sp_junk (w_sp w) = [] -> f_reenter f = true ->
-  w_reentry (snd (run1 batch T f w)) = Some true /\ w_flag (snd (run1 batch T f w)) = false.
+Theorem clause_reentry batch T f w : Ready w -> sp_junk (w_sp w) = [] ->
+  (forall b, In b (w_reentry (snd (run1 batch T f w))) -> b = true)
+  /\ length (f_reenter f) <= length (w_reentry (snd (run1 batch T f w)))
+  /\ w_flag (snd (run1 batch T f w)) = false.
 Proof.
-  intros [Hid Hran] Hj Hre. unfold run1. rewrite tab_iterations.
-  destruct (run_fresh batch T f w Hid Hj Hran) as [r [w' [Er [Hid' [_ [_ [Hr _]]]]]]]. rewrite Er. cbn [snd].
-  rewrite Hre in Hr. split; [exact Hr | exact (id_flag _ Hid')].
+  intros [Hid [Hran Hre0]] Hj. unfold run1. rewrite tab_iterations.
+  destruct (run_fresh batch T f w Hid Hj Hran Hre0) as [r [w' [Er [Hid' [_ [_ [Hr _]]]]]]]. rewrite Er. cbn [snd].
+  unfold reentry_okb in Hr. apply andb_true_iff in Hr as [H1 H2]. rewrite forallb_forall in H1.
+  split; [intros b Hb; exact (H1 b Hb)|]. split; [apply Nat.leb_le; exact H2 | exact (id_flag _ Hid')].
 Qed.
 
 Theorem clause_stale batch T f w : Ready w -> sp_junk (w_sp w) <> [] ->
@@ -1350,11 +1420,11 @@ Theorem clause_clean batch T f w : Ready w ->
       Permutation (filter nt (w_ran w') ++ filter nt (sp_junk (w_sp w'))) (sched_tokens f)
       /\ (In tok_timeout (sp_junk (w_sp w')) -> fst (run1 batch T f w) = Raised ENoResult)).
 Proof.
-  intros [Hid Hran]. cbv zeta. destruct (sp_junk (w_sp w)) as [|j0 jr] eqn:Ej.
+  intros [Hid [Hran Hre0]]. cbv zeta. destruct (sp_junk (w_sp w)) as [|j0 jr] eqn:Ej.
   - unfold run1. rewrite tab_iterations.
-    destruct (run_fresh batch T f w Hid Ej Hran) as [r [w' [Er [Hid' [_ [_ [_ [Hp [Ho _]]]]]]]]]. rewrite Er. cbn [fst snd].
+    destruct (run_fresh batch T f w Hid Ej Hran Hre0) as [r [w' [Er [Hid' [_ [_ [_ [Hp [Ho _]]]]]]]]]. rewrite Er. cbn [fst snd].
     destruct Hid'. repeat split; assumption.
-  - rewrite (clause_stale batch T f w (conj Hid Hran)) by (rewrite Ej; discriminate). cbn [snd].
+  - rewrite (clause_stale batch T f w (conj Hid (conj Hran Hre0))) by (rewrite Ej; discriminate). cbn [snd].
     destruct Hid. repeat split; try assumption; discriminate.
 Qed.
 
@@ -1363,12 +1433,12 @@ Theorem clause_restored batch T f w : Ready w ->
   w_stop w' = w_stop w /\ really_stopped (w_r w') = false
   /\ forall s, In s reactor_signals -> getsig s (w_sig w) <> h_none -> getsig s (w_sig w') = getsig s (w_sig w).
 Proof.
-  intros [Hid Hran]. cbv zeta. destruct (sp_junk (w_sp w)) as [|j0 jr] eqn:Ej.
+  intros [Hid [Hran Hre0]]. cbv zeta. destruct (sp_junk (w_sp w)) as [|j0 jr] eqn:Ej.
   - unfold run1. rewrite tab_iterations.
-    destruct (run_fresh batch T f w Hid Ej Hran) as [r [w' [Er [Hid' [Hst' [_ [_ [_ [_ Hrest]]]]]]]]]. rewrite Er. cbn [snd].
+    destruct (run_fresh batch T f w Hid Ej Hran Hre0) as [r [w' [Er [Hid' [Hst' [_ [_ [_ [_ Hrest]]]]]]]]]. rewrite Er. cbn [snd].
     split; [exact Hst'|]. split; [exact (id_rs _ Hid')|].
     intros s Hs Hn. apply Hrest; [apply tab_preserved; exact Hs | exact Hn].
-  - rewrite (clause_stale batch T f w (conj Hid Hran)) by (rewrite Ej; discriminate). cbn [snd].
+  - rewrite (clause_stale batch T f w (conj Hid (conj Hran Hre0))) by (rewrite Ej; discriminate). cbn [snd].
     split; [reflexivity|]. split; [exact (id_rs _ Hid)|]. reflexivity.
 Qed.
 
